@@ -1,3 +1,5 @@
+import struct
+
 from construct.core import ConstructError
 from io import IOBase
 from io import SEEK_END
@@ -45,7 +47,9 @@ class AkaiImageParser(Image):
                     _elem_parent=self,
                     _elem_routines=self._routines
                 )  
-            except (InvalidPartition, ConstructError) as e:
+            except (InvalidPartition, ConstructError, struct.error) as e:
+                # struct.error: the compiled partition struct unpacks a short
+                # read (image cut inside this partition's header) unchecked
                 break
             partitions.append(partition)
             partition_cnt += 1
